@@ -192,11 +192,13 @@ func (jenny APIReference) index(context languages.Context) (codejen.File, error)
 
 	buffer.WriteString("# Packages\n\n")
 
-	slices.SortFunc(context.Schemas, func(schemaA, schemaB *ast.Schema) int {
+	// sorted on a copy: the slice is shared with the other jennies
+	schemas := slices.Clone(context.Schemas)
+	slices.SortFunc(schemas, func(schemaA, schemaB *ast.Schema) int {
 		return strings.Compare(schemaA.Package, schemaB.Package)
 	})
 
-	for _, schema := range context.Schemas {
+	for _, schema := range schemas {
 		badge := jenny.packageBadge(schema)
 		if badge != "" {
 			badge += " "
